@@ -87,6 +87,7 @@ def c14_item(rnd, kind, uid0):
                 out.append(("derive_ex", redelimit("#[derive_ex(bound(u8: Q%d, ..))]" % nxt(), rnd)))
         return out
     item = {"kind": kind, "type_attrs": attrs_for("type", False), "variants": []}
+    many = rnd.random() < 0.15        # now and then: several nested #[derive_ex] lists on one field / variant
     nv = 1 if kind == "struct" else rnd.choice([1, 2, 3])
     for vi in range(nv):
         shape = rnd.choice(["named", "tuple", "unit"]) if kind == "enum" else rnd.choice(["named", "tuple"])
@@ -94,6 +95,12 @@ def c14_item(rnd, kind, uid0):
         v = {"shape": shape, "attrs": attrs_for("variant", True) if kind == "enum" else [], "fields": []}
         for j in range(nf):
             v["fields"].append({"attrs": attrs_for("field", True)})
+            if many:
+                for _ in range(rnd.choice([2, 3])):
+                    v["fields"][-1]["attrs"].insert(rnd.randrange(len(v["fields"][-1]["attrs"]) + 1), ("derive_ex", "#[derive_ex(bound(u8: Q%d, ..))]" % nxt()))
+        if many and kind == "enum":
+            for _ in range(2):
+                v["attrs"].append(("derive_ex", "#[derive_ex(bound(u8: Q%d, ..))]" % nxt()))
         item["variants"].append(v)
     return item, uid[0]
 
@@ -126,7 +133,7 @@ def c14_src(item, extra_type_attrs="", vis="pub", generics="<T>", where="where T
     vs = []
     for vi, v in enumerate(item["variants"]):
         at = " ".join(a for _, a in v["attrs"])
-        d = " = %d" % (vi * 3) if (disc and v["shape"] == "unit") else ""
+        d = " = %d" % (vi * 3) if disc else ""       # (with a primitive repr every kind of variant may carry a discriminant)
         vs.append("%s V%d %s%s" % (at, vi, fields(v), d))
     return "%s %s enum X%s %s { %s }" % (ta, vis, generics, where, ", ".join(vs))
 
@@ -154,6 +161,8 @@ def c14(tier):
         item, uid = c14_item(rnd, kind, uid)
         pool = ALL_TRAITS if kind == "struct" else ENUM_TRAITS
         D = rnd.sample(pool, rnd.choice([1, 1, 2, 3, 5]))
+        if rnd.random() < 0.2:          # only traits without helper attributes: hardly any name is derive_ex's own
+            D = rnd.sample([t for t in pool if t in ("Clone", "Copy", "Add", "SubAssign", "Neg", "Not", "Deref")] or ["Clone"], 1)
         # single-field rule of Deref / operators on enums etc. only change whether an ENTRY fails, never the item
         mode = rnd.random()
         lists_ok = True
@@ -174,6 +183,8 @@ def c14(tier):
                 extra = "#[derive_ex(Hash)]" if "Hash" not in D else ""
             if extra:
                 D = D + [re.search(r"\((\w+)\)", extra).group(1)]
+                if rnd.random() < 0.5:      # and a third and fourth one
+                    extra += " #[derive_ex(bound(u8: Q1, ..))] #[derive_ex(bound(u8: Q2, ..))]"
         src = c14_src(item, extra_type_attrs=extra, vis=rnd.choice(["pub", "pub(crate)", ""]),
                       generics=rnd.choice(["<T>", "<T = u8>", "<'a, T: 'a + Copy, const N: usize = 3>", "", "<'a>", "<const N: usize>"]),
                       where=rnd.choice(["", "where T: Copy"]), disc=rnd.random() < 0.3)
@@ -225,7 +236,7 @@ def c14(tier):
         ain = rin["items"][0]["attr_pos"]
         names = positions(c["item"])
         if c["extra"]:
-            names[0] = names[0] + ["derive_ex"]
+            names[0] = names[0] + ["derive_ex"] * c["extra"].count("#[derive_ex")
         if [len(x) for x in ain] != [len(x) for x in names]:
             raise dx.ToolError("attribute bookkeeping mismatch: %s vs %s in %s" % (ain, names, c["src"]))
         present = rout.get("class") in ("items", "compile_error") and rout["items"] and rout["items"][0]["kind"] in ("struct", "enum")
@@ -337,7 +348,7 @@ def impl_of(resp, entry, t):
 def c15(tier):
     ck = dx.Check("C15", tier)
     import checks_cmp, checks_bnd
-    cfgs, st = checks_cmp.mc_cfgs(ck, tier, dsets="closed" if tier == "quick" else "all")
+    cfgs, st = checks_cmp.mc_cfgs(ck, tier, dsets="quick" if tier == "quick" else "all")
     if not model_attrs(ck):
         return ck.finish()
     rnd = random.Random(dx.seed())
@@ -434,6 +445,33 @@ def c15(tier):
                     x = add("attr", A, (spelled % B) + " " + it)
                     y = add("attr", A, it)
                     plan.append(("split", x, y, None))
+    # a list with ONE trait carrying both its own and the shared bound: `[A(bx), by] [B, by]` is `[A(bx), B, by]`
+    for it in ("struct X<T, U>(T, ::core::option::Option<U>);", "enum X<T, U> { A(T), B { u: U } }"):
+        for bx in ("bound(T)", "bound(T: ::core::marker::Copy)", "bound()", "bound(T, ..)"):
+            for by in ("bound(U, ..)", "bound(U: ::core::marker::Copy)", "bound(::core::option::Option<U>, ..)"):
+                for A in ("Clone", "Debug", "PartialEq", "Hash"):
+                    for B in ("Clone", "Debug", "PartialEq", "Hash"):
+                        if A == B:
+                            continue
+                        for entry in ("attr", "derive"):
+                            l1, l2, lm = "%s(%s), %s" % (A, bx, by), "%s, %s" % (B, by), "%s(%s), %s, %s" % (A, bx, B, by)
+                            if entry == "attr":
+                                x, y = add("attr", l1, "#[derive_ex(%s)] %s" % (l2, it)), add("attr", lm, it)
+                            else:
+                                x = add("derive", "", "#[derive_ex(%s)] #[derive_ex(%s)] %s" % (l1, l2, it))
+                                y = add("derive", "", "#[derive_ex(%s)] %s" % (lm, it))
+                            plan.append(("split", x, y, None))
+    # field lists that are present but empty (`struct X {}`, `struct X();`, `A {}`, `B()`): the same through both entry points
+    for it in ("struct X {}", "struct X();", "struct X<T> {}", "enum X { #[default] A {}, B() }", "enum X<T> { A(), #[default] B {}, C(T) }"):
+        for D in ("Clone", "Default", "Clone, Default, Debug, PartialEq, Hash", "Copy, Clone", "Eq, PartialEq, Ord, PartialOrd"):
+            a = add("attr", D, it)
+            d = add("derive", "", "#[derive_ex(%s)] %s" % (D, it))
+            plan.append(("entry", a, d, None))
+    for it in ("struct X {}", "struct X();"):
+        for D in ("Add", "Neg, Not", "SubAssign, Add"):
+            a = add("attr", D, it)
+            d = add("derive", "", "#[derive_ex(%s)] %s" % (D, it))
+            plan.append(("entry", a, d, None))
     # the impl of B with its OWN bound(...) argument does not depend on what else is derived (nor on that trait's arguments)
     cl = ["Clone", "Debug", "PartialEq", "Hash", "Deref", "DerefMut", "Neg", "AddAssign"]
     for it in ("struct X<T>(T);", "struct X<T> { a: T }"):
@@ -713,6 +751,16 @@ def c16(tier):
     for i, m in enumerate(muts):
         ereq.append({"k": "expand", "id": 2 * i, "entry": "attr", "attr": m["attr"], "item": m["item"], "twice": True})
         ereq.append({"k": "expand", "id": 2 * i + 1, "entry": "derive", "attr": "", "item": "#[derive_ex(%s)] %s" % (m["attr"], m["item"]), "twice": True})
+    # the whole comparison matrix (every field configuration x closed trait set, one shape): refusals and acceptances alike must be
+    # the same tokens when expanded twice (messages and spans included)
+    import checks_cmp
+    mcfgs, _st = checks_cmp.mc_cfgs(ck, tier, dsets="closed")
+    mshapes = cf.shapes("quick")
+    for k, c in enumerate(mcfgs):
+        P = mshapes[k % len(mshapes)][1](c["c"])
+        body = cf.item_src(P, c["D"], "T", "distinct", "attr")
+        ereq.append({"k": "expand", "id": len(ereq), "entry": "attr" if k % 2 else "derive", "attr": ", ".join(c["D"]) if k % 2 else "",
+                     "item": body[body.index("]") + 1:] if k % 2 else "#[derive_ex(%s)] %s" % (", ".join(c["D"]), body[body.index("]") + 1:]), "twice": True})
     for c in corpus:      # the unmutated seeds as well
         ereq.append({"k": "expand", "id": len(ereq), "entry": "attr", "attr": c["attr"], "item": c["item"], "twice": True})
         ereq.append({"k": "expand", "id": len(ereq), "entry": "derive", "attr": "", "item": "#[derive_ex(%s)] %s" % (c["attr"], c["item"]), "twice": True})
